@@ -819,3 +819,52 @@ func TestVerifHarness(t *testing.T) {
 		os.RemoveAll(w.root)
 	}
 }
+
+
+// TestVerifRace: concurrent use of Match*, Skip* and one shared Config, for `go test -race`.
+func TestVerifRace(t *testing.T) {
+	if os.Getenv("VERIF_RACE") == "" {
+		t.Skip("VERIF_RACE not set")
+	}
+	root, err := os.MkdirTemp("", "verifrace")
+	if err != nil {
+		t.Fatal(err)
+	}
+	defer os.RemoveAll(root)
+	isCI, updateVAR = false, "true"
+	shared := WithConfig(Dir(root))
+	done := make(chan struct{})
+	start := make(chan struct{})
+	n := 24
+	for g := 0; g < n; g++ {
+		g := g
+		go func() {
+			defer func() { done <- struct{}{} }()
+			mt := &mockT{name: fmt.Sprintf("TestRace%d", g)}
+			<-start // all goroutines begin together, with different first operations
+			for i := 0; i < 6; i++ {
+				switch (g*5 + i) % 6 {
+				case 0:
+					shared.MatchSnapshot(mt, fmt.Sprintf("value %d %d", g, i))
+				case 1:
+					shared.MatchJSON(mt, fmt.Sprintf(`{"g":%d,"i":%d}`, g, i))
+				case 2:
+					shared.MatchYAML(mt, fmt.Sprintf("g: %d\ni: %d\n", g, i))
+				case 3:
+					shared.MatchStandaloneSnapshot(mt, fmt.Sprintf("standalone %d %d", g, i))
+				case 4:
+					shared.MatchStandaloneJSON(mt, fmt.Sprintf(`{"s":%d}`, i))
+				case 5:
+					Skip(&mockT{name: fmt.Sprintf("TestRaceSkipped%d", g)})
+				}
+			}
+			for j := len(mt.cleanups) - 1; j >= 0; j-- {
+				mt.cleanups[j]()
+			}
+		}()
+	}
+	close(start)
+	for g := 0; g < n; g++ {
+		<-done
+	}
+}
